@@ -26,4 +26,10 @@ CHECKS = {
         "text": "All 2^16 values of each 16-bit header word, every (quick: a boundary family of) data length, the full product of boundary values of all fields, the decode direction for every 16-bit word value, and the rejection cases are executed and compared with an independent layout model.",
         "note": "The joint space of all seven fields (2^48) is covered per 16-bit word and by boundary products, not jointly.",
     },
+    "C04": {
+        "level": "exploration",
+        "technique": "bounded-exhaustive enumeration of (encoding configuration, bit offset, bit pattern) through load + parse against an exact-arithmetic reference interpreter",
+        "text": "Every integer width 1..72 and 128 in every signedness/byte-order, and every supported float format, is decoded from generated XTCE documents at every bit offset, for all bit patterns of narrow fields (all 2^16 binary16 patterns) and a boundary/walking family for wide ones; values, kinds, raw values and the following sentinel are compared with the reference.",
+        "note": "Wide fields are covered structurally, not for all 2^w patterns; the oracle uses Fraction arithmetic, not struct.",
+    },
 }
